@@ -102,7 +102,8 @@ fn main() {
         if rng.chance(2, 3) { rng.shuffle(&mut tagged); }
         let reqs: Vec<ConstraintRequest> = tagged.iter().map(|t| t.2).collect();
         let usys = System::default_cfg(reqs.clone(), guesses.clone(), "union");
-        let mut bad = |what: String, sig: &str| out.push(Violation { property: "C17", what, signature: sig.into(), system: if total <= 60 { Some(usys.clone()) } else { None }, extra: format!("{} groups, {} variables", groups.len(), total) });
+        let mut bad = |what: String, sig: &str| out.push(Violation { property: "C17", what, signature: sig.into(), system: if total <= 3000 { Some(usys.clone()) } else { None }, extra: format!("{} groups, {} variables", groups.len(), total) });
+        let union_scale = groups.iter().map(|g| g.0.scale).fold(1e-9f64, f64::max);
         match solve(&reqs, guesses, Config::default()) {
             Err(e) => {
                 let drift = matches!(e.error, NonLinearSystemError::DidNotConverge) && groups.iter().any(|g| g.1.is_unsatisfied() && !g.2.is_empty());
@@ -117,12 +118,13 @@ fn main() {
                         bad(format!("group {gi}: unsatisfied {:?} in the union but {:?} alone", un, g.1.unsatisfied()), "verdicts-differ");
                         break;
                     }
-                    let scale = g.0.scale.max(1e-9);
+                    // the property's tolerance is relative to the scale of the whole sketch (the union)
+                    let scale = union_scale;
                     for (local, val) in g.1.final_values().iter().enumerate() {
                         if g.2.contains(&(local as u32)) { continue; }
                         let d = (o.final_values()[maps[gi][local] as usize] - val).abs();
                         if !(d <= 1e-5 * scale) {
-                            bad(format!("group {gi} variable {local}: {d:.3e} away from its value when solved alone (scale {scale})"), "values-differ");
+                            bad(format!("group {gi} variable {local}: {d:.3e} away from its value when solved alone (sketch scale {scale}, group scale {})", g.0.scale), "values-differ");
                             break;
                         }
                     }
